@@ -27,7 +27,7 @@ def _try(name):
 
 
 # ------------------------------------------------------------------ RP66V1
-def rp66v1(rng, scale=1, layout=None, convertible=False):
+def rp66v1(rng, scale=1, layout=None, convertible=False, name_pool=None):
     """A valid RP66V1 file: FILE-HEADER, populated ORIGIN, CHANNEL/FRAME sets and frame data in a random physical layout
     (or, for a share of the non-convertible requests, opaque records / encrypted records / foreign sets)."""
     from . import dlis, dlis_convertible, example_files, logpass
@@ -37,7 +37,7 @@ def rp66v1(rng, scale=1, layout=None, convertible=False):
     model = None
     r = rng.random()
     if convertible or r < 0.5:
-        lrs, model = dlis_convertible.convertible_file(rng, max_frames=20 * scale if scale > 1 else rng.choice([5, 20, 40]))
+        lrs, model = dlis_convertible.convertible_file(rng, max_frames=20 * scale if scale > 1 else rng.choice([5, 20, 40]), name_pool=name_pool)
         desc = 'convertible log pass file'
     elif r < 0.8:
         lrs, model = logpass.random_logpass_file(rng, max_frames=20 * scale)
